@@ -68,34 +68,34 @@ func resetGlobals(seqStrings bool) {
 // savedCtx is a snapshot of the per-function term context: the staged solving pipeline comes
 // back to a function's obligations (to instantiate more) after other functions have been translated.
 type savedCtx struct {
-	TC                                  *TermCtx
-	True, False                         *Term
-	PNil, NilLoc, NilSlc, NilFace       *Term
-	axiomsBySym                         map[string][]*Term
-	structByKey                         map[string]*structInfo
-	nextFid                             int
-	fidName                             map[int]string
-	typeIDs                             map[string]int
-	typeByID                            map[int]types.Type
-	declaredSorts                       map[string]bool
-	f64Consts                           map[string]*Term
-	opaqueZero                          map[string]*Term
-	globalIDs                           map[*ssa.Global]int64
-	funcIDs                             map[*ssa.Function]int64
-	recSpecDone                         map[string]bool
-	recDefs                             map[string]*recDef
-	recPass1                            map[string]bool
-	recSpecMem                          map[string][][2]string
-	bitAxioms                           map[int]*Term
-	symCache                            map[int]map[string]bool
-	ufLits                              map[string]*Term
-	patCache                            map[[2]int][]idxPattern
-	ufPosCache                          map[[2]int][]string
-	boundCache                          map[[2]int][]*Term
-	selSortCache                        map[[2]int]map[string]bool
-	strFunsDeclared                     bool
-	selectorOf                          map[string]selInfo
-	StrSort                             string
+	TC                            *TermCtx
+	True, False                   *Term
+	PNil, NilLoc, NilSlc, NilFace *Term
+	axiomsBySym                   map[string][]*Term
+	structByKey                   map[string]*structInfo
+	nextFid                       int
+	fidName                       map[int]string
+	typeIDs                       map[string]int
+	typeByID                      map[int]types.Type
+	declaredSorts                 map[string]bool
+	f64Consts                     map[string]*Term
+	opaqueZero                    map[string]*Term
+	globalIDs                     map[*ssa.Global]int64
+	funcIDs                       map[*ssa.Function]int64
+	recSpecDone                   map[string]bool
+	recDefs                       map[string]*recDef
+	recPass1                      map[string]bool
+	recSpecMem                    map[string][][2]string
+	bitAxioms                     map[int]*Term
+	symCache                      map[int]map[string]bool
+	ufLits                        map[string]*Term
+	patCache                      map[[2]int][]idxPattern
+	ufPosCache                    map[[2]int][]string
+	boundCache                    map[[2]int][]*Term
+	selSortCache                  map[[2]int]map[string]bool
+	strFunsDeclared               bool
+	selectorOf                    map[string]selInfo
+	StrSort                       string
 }
 
 func saveGlobals() *savedCtx {
